@@ -333,6 +333,9 @@ def needs_slots(seq, base):
 def random_sequence(rng):
     names = ['a', 'b', 'c']
     grid = [0.5, 1, 1, 1.5, 2, 2, 3, 0.25]
+    if rng.random() < 0.12:
+        # amounts of very different magnitude on one pool (bytes of memory: 2**34 next to 8), all exact
+        grid = [2 ** 34, 3 * 2 ** 32, 2 ** 33, 8, 1, 8, 2 ** 34 - 8]
     seq = []
     nres = 0
     for _ in range(rng.randint(6, 40)):
